@@ -59,6 +59,7 @@ type Path struct {
 	iv         *ivState
 	ivDecided  int
 	panicStack []string
+	userNotes  []string
 }
 
 func newPath(ex *Explorer, s *Solver, item WorkItem) *Path {
@@ -89,9 +90,11 @@ func (p *Path) NewVar(name string, w uint16) *Term {
 	}
 	v := p.f.mkVar(name, w)
 	p.vars = append(p.vars, v)
-	if !p.concrete {
-		p.s.Declare(v)
+	if p.concrete {
+		// concrete replay: every input is the constant of the model
+		return mkConst(p.model.vals[name]&maskB(w), w)
 	}
+	p.s.Declare(v)
 	return v
 }
 
